@@ -382,6 +382,9 @@ def check_parser_by_folding(ctx, pt):
                     def run_(*args, **kw):
                         ps_ = [a_.arg for a_ in fn__.args.args]
                         env_ = dict(f.__dict__.get('_globals', {}))
+                        # defaults of the parameters the call leaves out
+                        for a_, d_ in zip(fn__.args.args[len(fn__.args.args) - len(fn__.args.defaults):], fn__.args.defaults):
+                            env_[a_.arg] = f.ev(d_, {})
                         env_.update(zip(ps_, args))
                         env_.update(kw)
                         r_ = f.run(fn__.body, env_)
